@@ -91,3 +91,21 @@ Theorem C14_spec_nth : forall upper arr prec (i : nat) b, prec_ok prec ->
   (Z.of_nat (2 * i + 1) < zlen (hex_spec upper arr prec) ->
      nth_error (hex_spec upper arr prec) (2 * i + 1) = Some (digit upper (b mod 16))).
 Proof. exact hex_spec_nth. Qed.
+
+(* ---- tie to the current source: regenerated on every run by tools/ga2coq (coq/gen) ---- *)
+From Coq Require Import String.
+From GA Require Import Guards GuardTie.
+From GAGen Require Import GenGuards GenConstFns.
+Local Open Scope Z_scope.
+
+(* the strategy thresholds, chunk size, buffer size and the byte-count arithmetic as they
+   stand in src/hex.rs now are the ones the model uses *)
+Theorem C14_source_constants :
+  hex_strategy_conds = [CLe GN (GInt 1024); CLt GN (GInt 16)] /\
+  hex_chunk_sizes = [GInt 1024] /\ hex_buffer_sizes = [GInt 2048].
+Proof. exact tie_hex_constants. Qed.
+
+Theorem C14_source_arith : forall d n,
+  geval (env1 "max_digits" d) n hex_max_bytes = Hex.max_bytes_of d /\
+  geval (env1 "max_digits" d) n hex_max_digits_full = n * 2.
+Proof. exact tie_hex_arith. Qed.
